@@ -20,8 +20,8 @@ RULE = ("two real dilated wormholes with tiny randomised L2 send buffers (one wr
         "Outbound/Inbound state. Non-trivial = at least one transport-initiated pause reached a "
         "registered producer; distinct = decision traces.")
 ASSUMPTIONS = ["Noise stand-in", "state probes read Manager._connection, transport.producerPaused/reading between steps"]
-FLOORS = {"quick": {"probes": 60000, "producer_pauses": 1500, "producer_resumes": 1500, "inbound_pause_calls": 300, "cuts": 60, "unregisters_in_connectionLost": 80, "producers_that_are_false": 100, "producers_left_inside_pause": 50, "pauses_after_connectionLost": 80},
-          "thorough": {"probes": 2000000, "producer_pauses": 50000, "producer_resumes": 50000, "inbound_pause_calls": 10000, "cuts": 2000, "unregisters_in_connectionLost": 2500, "producers_that_are_false": 3000, "producers_left_inside_pause": 1500, "pauses_after_connectionLost": 2500}}
+FLOORS = {"quick": {"probes": 60000, "producer_pauses": 1500, "producer_resumes": 1500, "inbound_pause_calls": 300, "cuts": 60, "unregisters_in_connectionLost": 80, "producers_that_are_false": 100, "producers_left_inside_pause": 50, "pauses_after_connectionLost": 80, "inbound_wakeup_cases_with_a_pause_inside_dataReceived": 30},
+          "thorough": {"probes": 2000000, "producer_pauses": 50000, "producer_resumes": 50000, "inbound_pause_calls": 10000, "cuts": 2000, "unregisters_in_connectionLost": 2500, "producers_that_are_false": 3000, "producers_left_inside_pause": 1500, "pauses_after_connectionLost": 2500, "inbound_wakeup_cases_with_a_pause_inside_dataReceived": 1200}}
 
 
 @implementer(interfaces.IPushProducer)
@@ -422,10 +422,92 @@ def cases(tier, seed, prep=None):
     n = 330 if tier == "quick" else 11000
     out = [{"seed": seed * 1000003 + 1500000 + i, "cuts": [0, 0, 1, 2][i % 4]} for i in range(n)]
     out += [{"seed": seed * 1000003 + 1550000 + i, "cuts": [0, 0, 1][i % 3], "multipause": True} for i in range(120 if tier == "quick" else 4000)]
+    # inbound wake-up: an application pauses from inside dataReceived() while further records (for it, for other
+    # subchannels, a CLOSE) are in the same read; once nobody asks for a pause any more, everything that has arrived
+    # must be handed over although the peer says nothing further
+    out += [{"kind": "inbound-wakeup", "seed": seed * 1000003 + 1580000 + i, "release": ["resume", "stop", "resume-both", "resume"][i % 4],
+             "nsub": 1 + i % 3, "then_close": i % 5 < 2, "dir": "AB"[(i // 2) % 2]} for i in range(40 if tier == "quick" else 1500)]
     return out
 
 
+def run_inbound_wakeup(spec):
+    world = World(spec["seed"])
+    rng = world.work_rng
+    dp = DilatedPair(world, ping_interval=600.0)       # no ping comes to the rescue within the window that is judged
+    drv = ScriptDriver(dp, rng, names=("p",), max_opens=0, max_writes=0, late_listen=0.0, close_prob=0.0)
+    sch = Scheduler(world, drv, strategy=rng.choice(["random", "netfirst"]), chunking="whole")
+    sch.run(3000, until=dp.both_connected)
+    src, dst = spec["dir"], ("B" if spec["dir"] == "A" else "A")
+    recs = [drv.open(src, "p") for _ in range(spec["nsub"])]
+    sch.run(3000, until=lambda: all(x["proto"] is not None for x in recs) and len(drv.factories[dst]["p"].built) >= len(recs))
+    if any(x["proto"] is None for x in recs) or len(drv.factories[dst]["p"].built) < len(recs):
+        world.finish()
+        return {"inconclusive": "subchannels did not open", "violations": []}
+    sch.drain(2.0, 1500)
+    senders = [x["proto"] for x in recs]
+    receivers = [q for (_, q) in drv.factories[dst]["p"].built][:len(recs)]
+    pausers = [receivers[0]] if spec["release"] != "resume-both" else receivers[:2]
+    paused = []
+
+    def react(p_, kind):
+        if kind == "data" and p_ in pausers and p_ not in paused:
+            paused.append(p_)
+            p_.transport.pauseProducing()
+    for q in receivers:
+        q.react = react
+    n = rng.randint(2, 12)
+    for i in range(n):                       # one reactor turn: the records travel in one read
+        drv.write(rng.choice(senders) if i else senders[0], b"w:%d:" % i + rng.randbytes(rng.choice([1, 30, 500])))
+    closed = []
+    if spec.get("then_close"):
+        c = rng.choice(senders)
+        drv.close(c)
+        closed.append(c)
+    sch.drain(3.0, 3000)
+    before = sum(len([e for e in q.events if e[0] == "data"]) for q in receivers)
+    api_errors = []
+    for q in list(paused):
+        try:
+            if spec["release"] == "stop":
+                q.transport.stopProducing()
+            else:
+                q.transport.resumeProducing()
+        except Exception as e:
+            api_errors.append((type(e).__name__, repr(e)[:120]))
+        if spec["release"] == "resume-both" and q is paused[0] and len(paused) > 1:
+            sch.drain(1.0, 500)             # one pause is still outstanding: nothing moves yet
+    sch.drain(20.0, 4000)
+    viol = []
+    wit = {"spec": spec, "writes": n, "delivered_before_release": before, "paused": [q.name for q in paused],
+           "events": {q.name: [e[0] for e in q.events][:14] for q in receivers}, "api_errors": api_errors}
+    missing = 0
+    for s_, q in zip(senders, receivers):
+        got = [e[1] for e in q.events if e[0] == "data"]
+        if got != getattr(s_, "sent", []):
+            missing += len(getattr(s_, "sent", [])) - len(got)
+    if paused and missing:
+        viol.append({"key": "C15/inbound-wakeup-lost/arrived-but-not-delivered-after-%s" % ("stopProducing" if spec["release"] == "stop" else "resume"),
+                     "msg": "%d records for %d subchannels written in one turn; %s paused inside dataReceived() (%d handed over by then) and released the pause later: %d records still not delivered 20 virtual s after nobody asks for a pause, the peer being silent" % (
+                         n, len(senders), [q.name for q in paused], before, missing), "witness": wit})
+    for c in closed:
+        q = receivers[senders.index(c)]
+        if paused and "lost" not in [e[0] for e in q.events]:
+            viol.append({"key": "C15/inbound-wakeup-lost/close-not-delivered", "msg": "the CLOSE that travelled in the paused read was not handed to %s after the pause was released" % q.name, "witness": wit})
+    for (tn, rep) in api_errors[:1]:
+        viol.append({"key": "C15/api-raises/release/%s" % tn, "msg": rep, "witness": wit})
+    dp.a.close()
+    dp.b.close()
+    sch.drain(120.0, 10000, until=lambda: dp.a.closed and dp.b.closed)
+    world.finish()
+    return {"violations": viol, "nontrivial": ["inbound-wakeup", spec["seed"], n, before] if paused else None,
+            "counters": {"inbound_wakeup_cases_with_a_pause_inside_dataReceived": int(bool(paused)), "inbound_wakeup_records_withheld_at_release": max(0, n - before),
+                         "inbound_pause_calls": len(paused)},
+            "sets": {}, "sample": {"spec": spec, "writes": n, "before": before}}
+
+
 def run_case(spec):
+    if spec.get("kind") == "inbound-wakeup":
+        return run_inbound_wakeup(spec)
     world = World(spec["seed"])
     rng = world.work_rng
     r = world.reactor
